@@ -113,30 +113,29 @@ Fixpoint e2_loop (fuel : nat) (zorder config hilbert : N) (shift : Z) : res (N *
 Definition interleave2 (x y : N) : N :=
   N.lor (pdep x (mask_of pdep2_x)) (pdep y (mask_of pdep2_y)).
 
-(* [fixed] selects the final expression: repaired (true) or pinned (false) *)
+(* the code after the loop: last (partial, zero-padded) chunk and the final
+   shifts.  [fixed] selects the final expression: repaired (true) or pinned (false) *)
+Definition e2_final (fixed : bool) (zorder : N) (st : N * N * Z) : res N :=
+  let '(config, hilbert, shift) := st in
+  let ns := Z.to_N (- shift) in                         (* (-shift) as u64, 0 <= -shift <= 12 *)
+  let idx := N.lor (N.land config 0xf000)
+                   (wrap16 (N.land (wrap64 (N.shiftl zorder ns)) 0xfff)) in
+  match lut2_get idx with
+  | Ok c =>
+    if fixed then
+      Ok (N.lor (wrap64 (N.shiftl hilbert (Z.to_N (12 + shift)))) (N.shiftr (N.land c 0xfff) ns))
+    else
+      Ok (N.shiftr (N.lor (wrap64 (N.shiftl hilbert 12)) (N.land c 0xfff)) ns)
+  | Err e => Err e
+  | Panic s => Panic s
+  | OutOfFuel => OutOfFuel
+  end.
+
 Definition encode_2d_gen (fixed : bool) (x y : N) (order : N) : res N :=
   if negb (order <? 64) || negb (x <? 2 ^ order) || negb (y <? 2 ^ order) then Panic 5
   else
     let zorder := interleave2 x y in
-    match e2_loop 64 zorder 0 0 (2 * Z.of_N order - 12)%Z with
-    | Ok (config, hilbert, shift) =>
-      let ns := Z.to_N (- shift) in                     (* (-shift) as u64, 0 <= -shift <= 12 *)
-      let idx := N.lor (N.land config 0xf000)
-                       (wrap16 (N.land (wrap64 (N.shiftl zorder ns)) 0xfff)) in
-      match lut2_get idx with
-      | Ok c =>
-        if fixed then
-          Ok (N.lor (wrap64 (N.shiftl hilbert (Z.to_N (12 + shift)))) (N.shiftr (N.land c 0xfff) ns))
-        else
-          Ok (N.shiftr (N.lor (wrap64 (N.shiftl hilbert 12)) (N.land c 0xfff)) ns)
-      | Err e => Err e
-      | Panic s => Panic s
-      | OutOfFuel => OutOfFuel
-      end
-    | Err e => Err e
-    | Panic s => Panic s
-    | OutOfFuel => OutOfFuel
-    end.
+    bind (e2_loop 64 zorder 0 0 (2 * Z.of_N order - 12)%Z) (e2_final fixed zorder).
 
 Definition encode_2d := encode_2d_gen encode_2d_final_fixed.
 
@@ -223,14 +222,22 @@ Fixpoint seg_loop (fuel : nat) (n width f : spec_float) : res spec_float :=
 
 Definition seg_fuel : nat := 200.
 
-(* the part of segment_to_segment that runs before the closure is returned *)
-Definition seg_factor (fuel : nat) (mn mx : spec_float) (order : N) : res spec_float :=
+(* f64::min: the other operand when one is NaN *)
+Definition f64_min (a b : spec_float) : spec_float :=
+  if is_nan a then b else if is_nan b then a else if flt b a then b else a.
+Definition f64_max_value : spec_float := Eval compute in f64_of_bits 0x7FEFFFFFFFFFFFFF.   (* f64::MAX *)
+
+(* the part of segment_to_segment that runs before the closure is returned;
+   [capped]: `(n / width).min(f64::MAX)` (repaired) or `n / width` (pinned) *)
+Definition seg_factor_gen (capped : bool) (fuel : nat) (mn mx : spec_float) (order : N) : res spec_float :=
   if negb (fle mn mx) then Panic 2
   else if 64 <=? order then Panic 4
   else
     let width := f64_sub mx mn in
     let n := f64_of_Z (Z.of_N (2 ^ order)) in           (* (1_u64 << order) as f64, exact *)
-    seg_loop fuel n width (f64_div n width).
+    let f0 := f64_div n width in
+    seg_loop fuel n width (if capped then f64_min f0 f64_max_value else f0).
+Definition seg_factor := seg_factor_gen seg_factor_capped.
 
 (* the closure *)
 Definition seg_cell (f mn mx v : spec_float) : res N :=
@@ -340,7 +347,7 @@ Fixpoint pdep_pos (p : positive) (src : N) : N :=
   match p with
   | xH => src mod 2
   | xO p' => 2 * pdep_pos p' src
-  | xI p' => src mod 2 + 2 * pdep_pos p' (src / 2)
+  | xI p' => N.lor (src mod 2) (2 * pdep_pos p' (src / 2))
   end.
 Definition pdep_ref (src mask : N) : N :=
   match mask with N0 => 0 | Npos p => pdep_pos p src end.
